@@ -22,14 +22,19 @@ type vdump struct {
 	Deep bool     `json:"deep,omitempty"`
 }
 
-func dumpValue(v *ds.VMValue) *vdump { return dumpValueD(v, map[any]bool{}, 0) }
+// the dump is a TREE: a value with shared sub-structure is written as its unfolding, which can be exponentially larger
+// than the object graph; beyond dumpNodeCap nodes the rest is marked Deep ("not expressible", the case is skipped and counted)
+const dumpNodeCap = 200000
 
-func dumpValueD(v *ds.VMValue, seen map[any]bool, depth int) *vdump {
+func dumpValue(v *ds.VMValue) *vdump { n := 0; return dumpValueD(v, map[any]bool{}, 0, &n) }
+
+func dumpValueD(v *ds.VMValue, seen map[any]bool, depth int, dumpNodes *int) *vdump {
 	if v == nil {
 		return &vdump{T: -1}
 	}
 	d := &vdump{T: int(v.TypeId)}
-	if depth > 40 {
+	*dumpNodes++
+	if depth > 40 || *dumpNodes > dumpNodeCap {
 		d.Deep = true
 		return d
 	}
@@ -71,7 +76,7 @@ func dumpValueD(v *ds.VMValue, seen map[any]bool, depth int) *vdump {
 		seen[a] = true
 		d.L = []*vdump{}
 		for _, e := range a.List {
-			d.L = append(d.L, dumpValueD(e, seen, depth+1))
+			d.L = append(d.L, dumpValueD(e, seen, depth+1, dumpNodes))
 		}
 		delete(seen, a)
 	case ds.VMTypeDict:
@@ -98,7 +103,7 @@ func dumpValueD(v *ds.VMValue, seen map[any]bool, depth int) *vdump {
 		d.L, d.K = []*vdump{}, []string{}
 		for _, p := range l {
 			d.K = append(d.K, p.k)
-			d.L = append(d.L, dumpValueD(p.v, seen, depth+1))
+			d.L = append(d.L, dumpValueD(p.v, seen, depth+1, dumpNodes))
 		}
 		delete(seen, dd)
 	case ds.VMTypeComputedValue:
